@@ -246,4 +246,36 @@ theorem readFields_length {l : Gen.Layouts.Layout} {b : Bytes} {off : Nat} {e : 
         cases h
         simp [ih hvs]
 
+/-! ### counted loops -/
+
+theorem safe_loopGo {σ : Type} {B : Nat} (step : σ → Nat → M σ) (h : ∀ s i, Safe B (step s i)) :
+    ∀ (todo i : Nat) (s : σ) (rev : List Alloc), (∀ a ∈ rev, a.bytes ≤ B) → Safe B (M.loopGo step todo i s rev) := by
+  intro todo
+  induction todo with
+  | zero =>
+    intro i s rev hrev
+    refine ⟨fun p hp => (by simp [M.loopGo] at hp), fun a ha => ?_⟩
+    simp [M.loopGo] at ha
+    exact hrev a ha
+  | succ t ih =>
+    intro i s rev hrev
+    have hs := h s i
+    have hrev' : ∀ a ∈ (step s i).allocs.reverse ++ rev, a.bytes ≤ B := by
+      intro a ha
+      cases List.mem_append.mp ha with
+      | inl h1 => exact hs.2 a (List.mem_reverse.mp h1)
+      | inr h2 => exact hrev a h2
+    unfold M.loopGo
+    dsimp only
+    split
+    · exact ih _ _ _ hrev'
+    · refine ⟨fun p hp => (by cases hp), fun a ha => ?_⟩
+      exact hrev' a (List.mem_reverse.mp ha)
+    · rename_i p hres
+      exact absurd hres (hs.1 p)
+
+theorem safe_loop {σ : Type} {B : Nat} (n : Nat) (init : σ) (step : σ → Nat → M σ) (h : ∀ s i, Safe B (step s i)) :
+    Safe B (M.loop n init step) :=
+  safe_loopGo step h n 0 init [] (fun a ha => by cases ha)
+
 end MdModel.Dump
